@@ -114,7 +114,7 @@ FetchEntry == [ph |-> "fetch", up |-> FALSE, sb |-> FALSE, repl |-> "none", shut
 (* ------------------------------------------------------------------ one ebd object ("leaf")
    done    stages recorded in memory (_stage_state)       dir     build directory exists
    stamps  `.<stage>` files in the build directory        cn      clean_needed
-   env     T/environment: "absent" | "pkg" (the package's saved environment) | "other"
+   env     T/environment: "absent" | "pkg" (the package's saved environment) | "other" (a phase saved it)
    cas     built with clean=True                          vf      verified distfiles known
    mark    T/.user_patches_applied exists                                               *)
 Leaf0 == [done |-> {}, dir |-> FALSE, stamps |-> {}, cn |-> FALSE, env |-> "absent", cas |-> FALSE, vf |-> FALSE, mark |-> FALSE]
@@ -143,7 +143,9 @@ PhaseRun(leaf, lk, cfg, repl, s, script) ==
   IF ph = "" THEN [leaf |-> leaf, ran |-> <<>>, exc |-> ""]
   ELSE LET out == script[ph]
            h == Handle(out, FailureAllowed(cfg, s))
-           l1 == IF s = "prepare" /\ out = "ok" THEN [leaf EXCEPT !.mark = TRUE] ELSE leaf
+           \* the daemon saves the environment into T after every phase that completed (not after pkg_postrm)
+           l0 == IF out \in {"ok", "ok_nomark"} /\ ph # "postrm" THEN [leaf EXCEPT !.env = "other"] ELSE leaf
+           l1 == IF s = "prepare" /\ out = "ok" THEN [l0 EXCEPT !.mark = TRUE] ELSE l0
            unmarked == s = "prepare" /\ cfg.eapi >= 6 /\ ~l1.mark
        IN [leaf |-> l1, ran |-> <<Entry(cfg, ph, repl, h)>>,
            exc |-> IF h.exc # "" THEN h.exc ELSE IF unmarked THEN "GenericBuildError" ELSE ""]
@@ -183,7 +185,8 @@ LeafCall(leaf, lk, cfg, repl, stage, ignore, script) ==
    S = [top, a, b]: for the leaf kinds the object is a (top unused, b blank); a replace_op has its
    own recorded stages (top) and two halves: a = install_op(new), b = uninstall_op(old).       *)
 Blank == [top |-> {}, a |-> Leaf0, b |-> Leaf0]
-NewSession(S, cfg, cas) == [top |-> {}, a |-> FreshLeaf(S.a, cfg, cas), b |-> FreshLeaf(S.b, cfg, FALSE)]
+NewSession(S, cfg, cas) == [top |-> {}, a |-> FreshLeaf(S.a, cfg, cas),
+                            b |-> IF cfg.kind = "replace" THEN FreshLeaf(S.b, cfg, FALSE) ELSE S.b]
 
 ReplBody(S, cfg, s, script) ==
   LET viaA(st) == LET r == LeafCall(S.a, "install", cfg, Repl(cfg, "replacing"), st, FALSE, script)
